@@ -75,7 +75,7 @@ impl Property for C15 {
         "C15"
     }
     fn rule(&self) -> &'static str {
-        "case = (a) instance of either sense -> as_minimization_problem (twice) | (b) instance with removed constraints x 1..8 samples (ties, mixed feasibility) -> evaluate_samples -> best_feasible / best_feasible_unrelaxed | (c) hand-built SampleSet messages in the current encoding (feasible_relaxed + feasible) and in the 1.6 encoding (feasible = remaining constraints, deprecated feasible_unrelaxed = all, feasible_relaxed empty), passed through protobuf bytes, objectives one ulp apart and infinite, also 33..100 samples sharing three objective values with the ids of each value entry in scrambled order; \
+        "case = (a) instance of either sense -> as_minimization_problem (twice) | (b) instance with removed constraints x 1..8 samples (ties, mixed feasibility) -> evaluate_samples -> best_feasible / best_feasible_unrelaxed | (c) hand-built SampleSet messages in the current encoding (feasible_relaxed + feasible) and in the 1.6 encoding (feasible = remaining constraints, deprecated feasible_unrelaxed = all, feasible_relaxed empty), passed through protobuf bytes, objectives one ulp apart and infinite, also 33..900 samples sharing three objective values with the ids of each value entry in scrambled order; \
          oracle = exact negation / brute force arg-best over the sample table; non-trivial = >=3 samples with mixed feasibility and relaxed set != unrelaxed set, or a maximisation instance; distinct = sha256(case)"
     }
     fn required_labels(&self) -> Vec<String> {
@@ -148,10 +148,10 @@ impl Property for C15 {
             1 => {
                 ctx.label("mode=evaluated-samples");
                 let regime = Regime::Dyadic;
-                // a handful of samples, or (as a sampler with many reads returns them) 33..100 samples sharing three
+                // a handful of samples, or (as a sampler with many reads returns them) 33..900 samples sharing three
                 // objective values, listed in a scrambled (not ascending) order of ids inside each value entry
                 let many = t.p(30);
-                let n = if many { *t.pick(&[33usize, 40, 64, 65, 100]) } else { 1 + t.choice(8) };
+                let n = if many { *t.pick(&[33usize, 40, 64, 65, 100, 256, 300, 900]) } else { 1 + t.choice(8) };
                 let many_seed = t.byte() as u64;
                 let unrelaxed = t.coin();
                 let tie = t.p(90);
@@ -269,10 +269,10 @@ impl Property for C15 {
                 ctx.label("mode=handbuilt");
                 let legacy = t.coin();
                 ctx.label(if legacy { "legacy-1.6" } else { "new-style" });
-                // a handful of samples, or (as a sampler with many reads returns them) 33..100 samples sharing three
+                // a handful of samples, or (as a sampler with many reads returns them) 33..900 samples sharing three
                 // objective values, listed in a scrambled (not ascending) order of ids inside each value entry
                 let many = t.p(30);
-                let n = if many { *t.pick(&[33usize, 40, 64, 65, 100]) } else { 1 + t.choice(8) };
+                let n = if many { *t.pick(&[33usize, 40, 64, 65, 100, 256, 300, 900]) } else { 1 + t.choice(8) };
                 let many_seed = t.byte() as u64;
                 let unrelaxed = t.coin();
                 let mut pairs: Vec<(u64, f64)> = vec![];
